@@ -274,32 +274,42 @@ pub fn limits(a: &Args, rep: &mut Report) {
     let focus = static_prop(&rep.prop);
     let mut rng = sh.rng(0x11317);
     let want_transcript = a.has("transcript");
-    let mut tout = String::new();
+    let mut tfile = if want_transcript { Some(std::fs::File::create(a.str("transcript", "t.txt")).expect("create transcript")) } else { None };
     for h in 0..sh.n {
         let mut hr = rng.fork();
         let size = *hr.pick(&[0usize, 1, 3, 7, 9, 14, 15, 20, 28, 29, 40, 57, 100]);
         let state = hr.below(7);
         let elem = *hr.pick(&[ElemKind::U64, ElemKind::U64, ElemKind::TrInline]);
         let cfg = Cfg { elem, bh: Bh::new(*hr.pick(&[HMode::Good, HMode::Identity]), hr.below(3)), cap: usize::MAX, check_every: 16, cursor_every: 4, focus };
+        if let Some(f) = &mut tfile {
+            use std::io::Write as _;
+            let _ = writeln!(f, "## history {} {} state={} size={}", h, cfg.describe(), state, size);
+            let _ = f.flush();
+        }
         let out = match elem {
             ElemKind::U64 => limits_case::<u64, u64>(&cfg, state, size, &mut hr, want_transcript),
             _ => limits_case::<Tr<false>, Tr<false>>(&cfg, state, size, &mut hr, want_transcript),
         };
+        if out.is_none() {
+            if let Some(f) = &mut tfile {
+                use std::io::Write as _;
+                let _ = writeln!(f, "## end skipped");
+            }
+        }
         if let Some(out) = out {
-            if want_transcript {
-                use std::fmt::Write as _;
-                let _ = writeln!(tout, "## history {} {}", h, cfg.describe());
+            if let Some(f) = &mut tfile {
+                use std::io::Write as _;
+                let mut t = String::new();
                 for l in out.transcript.iter().flatten() {
-                    let _ = writeln!(tout, "{l}");
+                    t.push_str(l);
+                    t.push('\n');
                 }
                 match &out.viol {
-                    None => {
-                        let _ = writeln!(tout, "## end ok");
-                    }
-                    Some((v, at)) => {
-                        let _ = writeln!(tout, "## end VIOL {} at op {}: {}", v.prop, at, v.msg);
-                    }
+                    None => t.push_str("## end ok\n"),
+                    Some((v, at)) => t.push_str(&format!("## end VIOL {} at op {}: {}\n", v.prop, at, v.msg)),
                 }
+                let _ = f.write_all(t.as_bytes());
+                let _ = f.flush();
             }
             if out.stats.hist_split {
                 rep.bump("capacity_calls_split", 1);
@@ -307,9 +317,6 @@ pub fn limits(a: &Args, rep: &mut Report) {
             let tag = format!("limits-{}-s{}-i{}-h{}", flavour(), sh.seed, sh.index, h);
             rep.record(&cfg, &tag, out, |s| s.overflow_args > 0);
         }
-    }
-    if want_transcript {
-        std::fs::write(a.str("transcript", "t.txt"), tout).expect("write transcript");
     }
 }
 
@@ -606,7 +613,15 @@ fn build_map(contents: &BTreeMap<u64, u64>, r: &Recipe) -> (HashMap<u64, u64, Bh
                 d.clone_from(&m);
                 m = d;
             }
-            4 => m.reserve(nrng.usize(40)),
+            4 => {
+                // layout-only calls, small and larger than the spare room (all-at-once carry)
+                let n = if nrng.chance(1, 2) { nrng.usize(40) } else { m.capacity() - m.len() + 1 + nrng.usize(60) };
+                if nrng.chance(1, 2) {
+                    m.reserve(n);
+                } else {
+                    m.try_reserve(n).expect("try_reserve of a small amount");
+                }
+            }
             5 => m.shrink_to(nrng.usize(300)),
             6 => {
                 for (_, v) in m.iter_mut() {
